@@ -149,6 +149,10 @@ class Program:
         for name in self.funcs:
             tail = name.split('::')[-1]
             self.by_tail.setdefault(tail, []).append(name)
+        # promoted constants of functions: `const <fn path>::promoted[k]: <type> = {` with an ordinary body
+        self.consts = {}
+        for m in re.finditer(r'^const (.+?::promoted\[\d+\]): (.+?) = \{$', self.text, re.M):
+            self.consts.setdefault(m.group(1), []).append(m.start())
 
     @staticmethod
     def _param_start(hdr):
@@ -187,6 +191,13 @@ class Program:
         ret = hdr[pe + 1:].strip()
         ret = ret[2:].strip() if ret.startswith('->') else '()'
         return Func(name, hdr, params, ret, lines[1:])
+
+    def get_const(self, name, which=0):
+        start = self.consts[name][which]
+        end = self.text.index('\n}\n', start)
+        lines = self.text[start:end + 2].split('\n')
+        m = re.match(r'const (.+?): (.+?) = \{$', lines[0])
+        return Func(name, lines[0], [], m.group(2), lines[1:])
 
     @staticmethod
     def norm_type(t):
